@@ -32,6 +32,10 @@ enum Scenario {
     Snap { name: &'static str, is128: bool },
     /// tape with autoload (real time or fast)
     TapeLoad { is128: bool, fast: bool },
+    /// fast loading enabled *and* the host presses play: a program keeps calling ROM LD-BYTES while a
+    /// one-block tape plays in real time and stops by itself at its end (about frame 151), after
+    /// which the fast loader may serve the requests again
+    TapePoll { is128: bool, iff: bool },
     /// interrupt-driven idle loop (EI; HALT; record R; ...) at `base`, `pad` NOPs shift its phase
     HaltLoop { is128: bool, base: u16, pad: u8 },
 }
@@ -93,6 +97,8 @@ enum Input {
     MouseBtn(usize, bool),
     Wheel(bool),
     Move(i8, i8),
+    /// cassette deck commands: 0 play, 1 stop, 2 rewind
+    Deck(u8),
 }
 
 struct Events {
@@ -109,11 +115,17 @@ fn send(m: &mut Machine, i: &Input) {
         Input::MouseBtn(k, p) => m.emu.send_mouse_button(KempstonMouseButton::iter().nth(*k).unwrap(), *p),
         Input::Wheel(up) => m.emu.send_mouse_wheel(if *up { KempstonMouseWheelDirection::Up } else { KempstonMouseWheelDirection::Down }),
         Input::Move(x, y) => m.emu.send_mouse_pos_diff(*x, *y),
+        Input::Deck(0) => m.emu.play_tape(),
+        Input::Deck(1) => m.emu.stop_tape(),
+        Input::Deck(_) => {
+            let _ = m.emu.rewind_tape();
+        }
     }
 }
 
 fn random_input(rng: &mut Rng) -> Input {
-    match rng.below(10) {
+    match rng.below(11) {
+        10 => Input::Deck(rng.below(3) as u8),
         0..=3 => Input::Key(rng.below(ZXKey::iter().count() as u64) as usize, rng.bool()),
         4 => Input::Compound(rng.below(CompoundKey::iter().count() as u64) as usize, rng.bool()),
         5 => Input::Sinclair(rng.below(2) as usize, rng.below(SinclairKey::iter().count() as u64) as usize, rng.bool()),
@@ -125,7 +137,7 @@ fn random_input(rng: &mut Rng) -> Input {
 
 fn build(scn: &Scenario, asset: AssetKind, tag: u64) -> Machine {
     let is128 = match scn {
-        Scenario::Boot { is128 } | Scenario::Program { is128, .. } | Scenario::Snap { is128, .. } | Scenario::TapeLoad { is128, .. } | Scenario::HaltLoop { is128, .. } => *is128,
+        Scenario::Boot { is128 } | Scenario::Program { is128, .. } | Scenario::Snap { is128, .. } | Scenario::TapeLoad { is128, .. } | Scenario::HaltLoop { is128, .. } | Scenario::TapePoll { is128, .. } => *is128,
     };
     let mut cfg = Cfg::of(is128);
     cfg.ay = true;
@@ -134,6 +146,9 @@ fn build(scn: &Scenario, asset: AssetKind, tag: u64) -> Machine {
     if let Scenario::TapeLoad { fast, .. } = scn {
         cfg.fastload = *fast;
         cfg.autoload = true;
+    }
+    if let Scenario::TapePoll { .. } = scn {
+        cfg.fastload = true;
     }
     let mut m = Machine::new(cfg);
     let td = repo_root().join("rustzx-test/test_data");
@@ -186,6 +201,31 @@ fn build(scn: &Scenario, asset: AssetKind, tag: u64) -> Machine {
             rf.im = 1;
             rf.iff1 = true;
             rf.iff2 = true;
+            rf.iy = 0x5C3A;
+            m.set_regs(&rf);
+        }
+        Scenario::TapePoll { iff, .. } => {
+            if is128 {
+                m.out(0x7FFD, 0x10);
+            }
+            // one block: flag FF, 16 data bytes, checksum
+            let mut blk = vec![0xFFu8];
+            blk.extend((0..16u8).map(|i| i.wrapping_mul(37) ^ 0x5A));
+            let ck = blk.iter().fold(0u8, |a, b| a ^ b);
+            blk.push(ck);
+            let mut tap = vec![blk.len() as u8, 0];
+            tap.extend_from_slice(&blk);
+            m.emu.load_tape(Tape::Tap(make_asset(asset, &td.join("simple_tape.tap.gz"), &tap, tag))).expect("tape");
+            m.emu.play_tape();
+            // loop: LD IX,9000; LD DE,0010; LD A,FF; SCF; CALL 0556; count calls at A000, keep F at A002
+            let code = [0xDD, 0x21, 0x00, 0x90, 0x11, 0x10, 0x00, 0x3E, 0xFF, 0x37, 0xCD, 0x56, 0x05, 0x2A, 0x00, 0xA0, 0x23, 0x22, 0x00, 0xA0, 0xF5, 0xC1, 0xED, 0x43, 0x02, 0xA0, 0x18, 0xE4];
+            m.poke_bytes(0x8000, &code);
+            let mut rf = RegFile::default();
+            rf.pc = 0x8000;
+            rf.sp = 0xBF00;
+            rf.im = 1;
+            rf.iff1 = *iff;
+            rf.iff2 = *iff;
             rf.iy = 0x5C3A;
             m.set_regs(&rf);
         }
@@ -380,7 +420,8 @@ struct St {
 
 fn one_tuple(ctx: &Ctx, rng: &mut Rng, st: &mut St, case: u64) {
     let is128 = rng.bool();
-    let scn = match rng.below(8) {
+    let scn = match rng.below(9) {
+        8 => Scenario::TapePoll { is128, iff: rng.bool() },
         7 => Scenario::HaltLoop { is128, base: *rng.pick(&[0x6000u16, 0x5CCB, 0x7FF8, 0x8000, 0xC000]), pad: rng.below(8) as u8 },
         0 => Scenario::Boot { is128 },
         1 | 2 => Scenario::Program { is128, seed: rng.next() },
@@ -389,7 +430,10 @@ fn one_tuple(ctx: &Ctx, rng: &mut Rng, st: &mut St, case: u64) {
         5 => Scenario::Snap { name: "keyboard.48k.sna.gz", is128: false },
         _ => Scenario::TapeLoad { is128, fast: rng.bool() },
     };
-    let total = if ctx.quick() { 20 + rng.below(60) as usize } else { 100 + rng.below(200) as usize };
+    let mut total = if ctx.quick() { 20 + rng.below(60) as usize } else { 100 + rng.below(200) as usize };
+    if matches!(scn, Scenario::TapePoll { .. }) {
+        total = 165 + rng.below(40) as usize; // the tape stops by itself around frame 151
+    }
     // events at a few frames
     let n_ev = rng.below(10) as usize;
     let mut ev_frames: Vec<usize> = (0..n_ev).map(|_| rng.below(total as u64) as usize).collect();
@@ -437,6 +481,10 @@ fn one_tuple(ctx: &Ctx, rng: &mut Rng, st: &mut St, case: u64) {
     alts.push(("ay-mix-off".into(), Driving::PerFrame { drain: 1, sound: true, ay: false }, AssetKind::Buffer, false));
     alts.push(("drain-every-3".into(), Driving::PerFrame { drain: 3, sound: true, ay: true }, AssetKind::Buffer, false));
     alts.push(("never-drain".into(), Driving::PerFrame { drain: 0, sound: true, ay: true }, AssetKind::Buffer, false));
+    if matches!(scn, Scenario::TapePoll { .. }) {
+        alts.push(("asset-file".into(), base_drv.clone(), AssetKind::File, true));
+        alts.push(("asset-short-read".into(), base_drv.clone(), AssetKind::Short(*rng.pick(&[1usize, 7, 100])), true));
+    }
     if matches!(scn, Scenario::Snap { .. } | Scenario::TapeLoad { .. }) {
         alts.push(("asset-file".into(), base_drv.clone(), AssetKind::File, true));
         alts.push(("asset-gzip".into(), base_drv.clone(), AssetKind::Gzip, true));
@@ -452,7 +500,7 @@ fn one_tuple(ctx: &Ctx, rng: &mut Rng, st: &mut St, case: u64) {
             }
         }
         // halting loops are what speed modes may shortcut: keep Max mode and FrameCount(n)
-        if matches!(scn, Scenario::HaltLoop { .. }) {
+        if matches!(scn, Scenario::HaltLoop { .. } | Scenario::TapePoll { .. }) {
             for (slot, name) in ["max-mode", "partition"].iter().enumerate() {
                 if let Some(i) = alts.iter().position(|a| a.0 == *name) {
                     alts.swap(slot, i);
